@@ -4,6 +4,11 @@
 //!   replay run <property> <records.jsonl>   <out.jsonl>     concrete re-evaluation (records carry "values")
 
 mod ledger;
+#[cfg(feature = "mcp")]
+#[allow(dead_code, unused_imports, clippy::all)]
+pub mod mcpgen {
+    include!(concat!(env!("OUT_DIR"), "/mcp_gen.rs"));
+}
 mod props;
 mod spec;
 mod vx;
